@@ -480,10 +480,26 @@ for pi, P in enumerate(pats):
                          explicit=(n_ex % 3 == 0), alias=(n_ex % 4 == 1))
                 n_ex += 1
 chk.count('atlas_pairs', n_ex)
+if chk.thorough:
+    # every LABELLED pattern on <= 4 nodes (all relative numberings of every shape: ISMAGS orders nodes by key)
+    n_lab = 0
+    for n in range(1, 5):
+        pairs = list(itertools.combinations(range(n), 2))
+        for mask in range(1 << len(pairs)):
+            P = nx.Graph()
+            P.add_nodes_from(range(n))
+            P.add_edges_from(pr for b, pr in enumerate(pairs) if mask >> b & 1)
+            for ti, T in enumerate(small):
+                if len(T) < 2:
+                    continue
+                g = relabel(nx.Graph(T), rng, 30)
+                run_pair('lab-%d-%d-%d' % (n, mask, ti), g, P.copy(), do_iso=True, do_lcs=True, explicit=(n_lab % 3 == 0))
+                n_lab += 1
+    chk.count('labelled_pattern_pairs', n_lab)
 
 # ---- symmetric patterns of 5-10 nodes in noisy targets -----------------------------
 rng = chk.rng('sym')
-N = 6000 if chk.thorough else 260
+N = 6000 if chk.thorough else 700
 for i in range(N):
     sg = sym_pattern(rng)
     g = noisy_target(sg, rng)
@@ -506,7 +522,7 @@ for i in range(N):
 
 # ---- common-subgraph search on pairs that are not contained in each other -------------
 rng = chk.rng('lcs')
-N = 2500 if chk.thorough else 150
+N = 2500 if chk.thorough else 500
 for i in range(N):
     ns = rng.randint(3, 7)
     kind = rng.random()
